@@ -33,7 +33,8 @@ class Contract:
                calls=None, note='', defaults=None, may_raise=(), abstract=False,
                types=None, lemmas=None, defs=None, hints=None, cases=None, recdefs=None,
                facts=None, entry_facts=None, cm=False, enter_ensures=None, exit_post=None,
-               exc_rel=None, swallows=None, havoc_all=False, ghost_writes=(), pivots=None):
+               exc_rel=None, swallows=None, havoc_all=False, ghost_writes=(), pivots=None,
+               may_raise_from=None):
     self.id = cid
     self.file = file
     self.qualname = qualname
@@ -42,6 +43,8 @@ class Contract:
     self.raises = raises or {}           # exc name -> Ctx(pre) -> Bool  (raised only if)
     self.raises_post = raises_post or {}  # exc name -> Ctx -> Bool (post-state on that exit)
     self.may_raise = tuple(may_raise)    # exception class names that may escape, no condition
+    # if given: `may_raise` exceptions may only originate from these callee contract ids
+    self.may_raise_from = tuple(may_raise_from) if may_raise_from is not None else None
     self.mod = mod or (lambda c: [])
     self.writes = tuple(writes)          # field names whose arrays may change
     self.result = result
